@@ -163,18 +163,30 @@ func variantsHistory(c *Ctx, id int) {
 	var abFields, mFields []string // fields not covered by the hash, found by experiment on the first block / momentum
 	uintDonors = map[string][]uint64{}
 	for r := 0; r < rounds; r++ {
+		// generated blocks by gossip (s_variants_state.go): the contract receives in the producer's pool, with an uncovered field
+		// altered / the empty key fields filled, reach follower f before the honest copy and before the confirming momentum
+		contractGossipVariants(c, a, f, abFields, fail)
 		// honest traffic on the producer: a few user blocks (sends, receives, contract calls), pooled, not yet in a momentum
 		var fresh []*nom.AccountBlock
 		for k := 0; k < 1+c.R.Intn(3); k++ {
 			from := users[c.R.Intn(len(users))]
 			var tpl *nom.AccountBlock
-			switch c.R.Intn(3) {
+			choice := c.R.Intn(4)
+			if r == 0 && k == 0 {
+				choice = 2 + c.R.Intn(2) // every history has a contract call whose generated receive is in the pool at the top of round 1
+			}
+			switch choice {
 			case 0:
 				tpl = &nom.AccountBlock{BlockType: nom.BlockTypeUserSend, Address: from, ToAddress: users[c.R.Intn(len(users))], TokenStandard: types.ZnnTokenStandard, Amount: big.NewInt(int64(1 + c.R.Intn(1000)))}
 			case 1:
 				data := make([]byte, c.R.Intn(50))
 				c.R.Read(data)
 				tpl = &nom.AccountBlock{BlockType: nom.BlockTypeUserSend, Address: from, ToAddress: g.User6.Address, TokenStandard: types.QsrTokenStandard, Amount: big.NewInt(int64(c.R.Intn(50))), Data: data}
+			case 3:
+				// a plasma fusion: its contract receive has no descendants
+				if data, perr := definition.ABIPlasma.PackMethod(definition.FuseMethodName, users[c.R.Intn(len(users))]); perr == nil {
+					tpl = &nom.AccountBlock{BlockType: nom.BlockTypeUserSend, Address: from, ToAddress: types.PlasmaContract, TokenStandard: types.QsrTokenStandard, Amount: big.NewInt(int64(10+c.R.Intn(5)) * g.Zexp), Data: data}
+				}
 			default:
 				// a token issue: its contract receive carries a descendant send (exercised by the lying-peer part)
 				data, perr := definition.ABIToken.PackMethod(definition.IssueMethodName, fmt.Sprintf("vtok%d", c.R.Intn(1000000)), "VT", "", big.NewInt(int64(c.R.Intn(1000))), big.NewInt(1000), uint8(2), true, true, false)
@@ -390,7 +402,21 @@ func variantsHistory(c *Ctx, id int) {
 					}
 					v := cloneBlock(b)
 					kind := ""
-					switch c.R.Intn(4) {
+					switch c.R.Intn(5) {
+					case 4:
+						// the key fields, empty on honest contract blocks, filled (on the receive or on a descendant)
+						target := v
+						kind = "receive-"
+						if len(v.DescendantBlocks) > 0 && c.R.Intn(3) == 0 {
+							target = v.DescendantBlocks[c.R.Intn(len(v.DescendantBlocks))]
+							kind = "descendant-"
+						}
+						kv := keyVariants()
+						vk := kv[c.R.Intn(len(kv))]
+						if !vk.f(c, target) {
+							continue
+						}
+						kind += vk.name
 					case 0:
 						pl := [][2]uint64{{7, 9}, {0, 1}, {1, 1}, {1, 0}, {^uint64(0), ^uint64(0)}, {21000, 21000}}[c.R.Intn(6)]
 						v.BasePlasma, v.TotalPlasma = v.BasePlasma+pl[0], v.TotalPlasma+pl[1]
@@ -455,6 +481,12 @@ func variantsHistory(c *Ctx, id int) {
 				}
 			}
 			delivered = H2
+		}
+	}
+	// variants of blocks the follower verified and then lost in a reorganisation (s_variants_state.go)
+	if delivered == a.Height() {
+		if !variantsAfterReorg(c, a, f, ref, abFields, fail) {
+			return
 		}
 	}
 	c.Hit("history")
